@@ -88,7 +88,7 @@ def heap_part(chk, pid, store):
         if not st['hist']:
             continue
         idx += 1
-        protos = [idx % 6] if chk.quick else [0, 1, 2, 3, 4, 5]
+        protos = [idx % 5, 5] if chk.quick else [0, 1, 2, 3, 4, 5]
         replay_state(chk, store, st, pid, idx, protos)
         if not neg and len(st['objs']) >= 2:
             spec = hr.project_spec(st)
@@ -112,7 +112,7 @@ def heap_part(chk, pid, store):
                 continue
             seen.add(key)
             idx += 1
-            replay_state(chk, store, st, pid, idx, [idx % 6])
+            replay_state(chk, store, st, pid, idx, [idx % 5, 5])
 
 
 def file_level(chk):
